@@ -102,6 +102,31 @@ Theorem C07_snapshot_ignores_staging : forall st ops k lo hi,
 Proof. exact C07_snapshot_ignores_staging_proof. Qed.
 Print Assumptions C07_snapshot_ignores_staging.
 
+(* BufferSnapshotBatchGetter (the second copy of the merge loop of batch_getter.go) over the staging-blind view,
+   in any state, for arbitrary key lists incl. duplicates: the snapshot is handed exactly the requested keys that
+   the base view does not hold; the result is the base view overlaid on the snapshot, restricted to the keys. *)
+Theorem C07_snapshot_batch_get : forall st snap keys, no_tomb snap -> dsorted false snap ->
+  let '(handed, res) := x_snap_batch_get snap st keys in
+  handed = filter (fun k => match x_snap_get st k with None => true | Some _ => false end) keys /\
+  dsorted false res /\
+  forall k, kv_get res k =
+    if key_mem k keys
+    then match (match x_snap_get st k with Some v => Some v | None => kv_get snap k end) with
+         | Some v => if is_tomb v then None else Some v
+         | None => None
+         end
+    else None.
+Proof. exact C07_snapshot_batch_get_proof. Qed.
+Print Assumptions C07_snapshot_batch_get.
+
+(* The early return of MemDB.BatchGet on Len() = 0 is sound: in every reachable state Len = 0 means that no key
+   is buffered and no key has flags. (Dirty() = false does NOT mean that: see C07_dirty.) *)
+Theorem C07_len_zero : forall ops,
+  let st := xrun ops xbuf_empty in
+  x_len st = 0 -> forall k, buf_get (x_b st) k = None /\ x_get_flags st k = None.
+Proof. exact C07_len_zero_proof. Qed.
+Print Assumptions C07_len_zero.
+
 (* ---------- non-vacuity ---------- *)
 Example flags_example :
   let st := xrun [XWrite [97] [1] [0%nat]; XStaging; XWrite [98] [2] [2%nat; 0%nat]; XFlags [97] [1%nat; 9%nat];
